@@ -564,7 +564,7 @@ Definition apply_act (a : act) (s : gst) (t : Z) (e : event) : option gst :=
   | ASig w =>
       if ea e =? ev s w then Some (set_ph (set_ev s (upd (ev s) w (u32 (ev s w + 1)))) (upd (ph s) w PhSigd)) else None
   | AWake w => Some (set_slp s (upd (slp s) w (wake_one (slp s w))))
-  | ARemote b => if Bool.eqb (remote s t) b then Some s else None
+  | ARemote b => if Bool.eqb (remote s t) b then Some (set_ph s (upd (ph s) t PhNone)) else None
   end.
 
 Fixpoint apply_acts (l : list act) (s : gst) (t : Z) (e : event) : option gst :=
